@@ -21,7 +21,7 @@ def h_ser(L, T, parts):
     for x in s:
         if not isinstance(x, int):
             L.assume(z3.And(x != 0x22, x != 0x5C, z3.UGE(x, 0x20)))     # keep the JSON framing of the native replay trivial
-    req = {'op': 'serde', 'T': KINDS[T][1], 'json': SymStr(json_string(s))}
+    req = {'op': 'serde', 'T': KINDS[T][1], 'json': SymStr(json_string(s)), 'after_failure': True}
     L.expect_native(req, {})
     try:
         r = from_str(I, T, s)
@@ -30,6 +30,11 @@ def h_ser(L, T, parts):
             return 'rejected'
         p = r.fields[0]
         disp = display(I, T, p)
+        # "any PURL", whatever happened before on this thread: a serializer that refuses the value first, then the one that records
+        bad = ModelSerializer(fail=True)
+        r0 = I.call('<GenericPurl<%s> as Serialize>::serialize::<ModelSerializer>' % tytext(T), [Ref([p], 0), bad])
+        if r0.variant != 'Err':
+            L.fail('an error of the serializer is not returned')
         ser = ModelSerializer()
         res = I.call('<GenericPurl<%s> as Serialize>::serialize::<ModelSerializer>' % tytext(T), [Ref([p], 0), ser])
     except Panic as e:
